@@ -203,11 +203,10 @@ def check_c12(tier, seed):
     hs = fault_histories(wl, "r", tier, rng, "ro")
     run_batch(out, "faults", "A", hs, spec="Trace_Handle", driver="hdrive")
     # faults at the reads of `open` itself on a file with two FAT sectors (a table assembled from what could be read), sampled
-    ow = hgens.ro_open_workload(3, 1024)
-    hs = fault_histories([ow], "r", "thorough", rng, "roopen")
+    hs = fault_histories([hgens.ro_open_workload(3, 1024, True), hgens.ro_open_workload(3, 1024, False)], "r", "thorough", rng, "roopen")
     hs = [h for h in hs if len(h["faults"]["at"]) == 1]
     if tier == "quick":
-        hs = hs[:: max(1, len(hs) // 150)]
+        hs = hs[:: max(1, len(hs) // 220)]
     run_batch(out, "open_faults", "A", hs, spec="Trace_Handle", driver="hdrive")
     # the same positions failing with ErrorKind::Interrupted, which std's read_exact loops retry silently:
     # a retried transfer must not have moved anything
